@@ -755,3 +755,78 @@ def L8b(tier, scheds=('fwd', 'bwd')):
                         links.append((x, c1) if sched == 'fwd' else (c1, x))
                     for bal in (True, False):
                         yield Scenario(sched, bal, A, tasks, links, layer='L8b')
+
+
+def LS(tier, scheds=('fwd', 'bwd')):
+    """Scale probes for the schedulers: fixed inputs larger than the enumerated layers. (1) a leaf below 40 nested summaries; the
+    outermost summary waits for an 80-hour task, and a root standing FIRST in the plan waits for the deep leaf (so the leaf is
+    reached through a link before its ancestors are entered); backward: the mirror. (2) plans that run for three months across a
+    New Year on one resource: three independent 160-hour tasks, and a chain prepare (dev) >> soak test (ops, 320 h) >> release (dev)."""
+    from datetime import datetime as _dt
+    for sched in scheds:
+        A = MON if sched == 'fwd' else MON + 70 * DAY
+        depth = 40
+        tasks = [(1, None, {'estimate': 8, 'resource': 'C'}), (2, None, {'estimate': 80, 'resource': 'A'})]
+        first_s = len(tasks)
+        for d in range(depth):
+            tasks.append((3 + d, None if d == 0 else first_s + d - 1, {}))
+        leaf = len(tasks)
+        tasks.append((3 + depth, leaf - 1, {'estimate': 8, 'resource': 'B'}))
+        links = [(1, first_s), (leaf, 0)] if sched == 'fwd' else [(first_s, 1), (0, leaf)]
+        for bal in (True, False):
+            yield Scenario(sched, bal, A, tasks, links, layer='LS')
+        NY = _dt(2030, 11, 4) if sched == 'fwd' else _dt(2031, 2, 8)
+        three = [(i + 1, None, {'estimate': 160, 'resource': 'A'}) for i in range(3)]
+        chain = [(1, None, {'estimate': 40, 'resource': 'dev'}), (2, None, {'estimate': 320, 'resource': 'ops'}),
+                 (3, None, {'estimate': 24, 'resource': 'dev'})]
+        # nine 160-hour tasks on one resource: the last ones look for a free day across more than 200 booked days
+        nine = [(i + 1, None, {'estimate': 160, 'resource': 'A'}) for i in range(9)]
+        yield Scenario(sched, True, NY, nine, [], layer='LS')
+        for bal in (True, False):
+            yield Scenario(sched, bal, NY, three, [], layer='LS')
+            yield Scenario(sched, bal, NY, chain, [(0, 1), (1, 2)], layer='LS')
+            yield Scenario(sched, bal, NY, chain, [(0, 1), (1, 2)], cals={'dev': 'wk58', 'ops': 'wk7'}, layer='L7S')
+
+
+def L7t(tier, scheds=('fwd', 'bwd')):
+    """Remaining work that is tiny, or exceeds a day's capacity by a tiny amount: hours logged to the minute or the second
+    (8 h 30 s = 8.008333, 7.995 of 8 spent), float residue (0.1 + 0.2 against 0.3), amounts below one nanohour. (L7: tolerances.)"""
+    vals = [(0.1 + 0.2, 0.3), (8, 7.995), (0.005, None), (8.008333, None), (15.003333, None), (1e-9, None), (5e-10, None), (10, 1.995),
+            (16.0000001, None)]
+    for sched in scheds:
+        A = MON if sched == 'fwd' else MON + 21 * DAY
+        for (e, sp) in vals:
+            for cal in ('none', 'half'):
+                for second in (None, {'estimate': 4, 'resource': 'A'}, {'milestone': True}):
+                    a = {'estimate': e, 'resource': 'A'}
+                    if sp is not None:
+                        a['spent'] = sp
+                    par = (None,) if second is None else (None, None)
+                    attrs = {0: a}
+                    links = []
+                    if second is not None:
+                        attrs[1] = dict(second)
+                        links = [(0, 1)]
+                    for bal in (True, False):
+                        for anchor in (A, A + 5 * DAY):  # a Monday and a Saturday
+                            yield Scenario(sched, bal, anchor, mk_tasks(par, attrs), links, cals={'A': cal}, layer='L7t')
+
+
+def L1neg(tier, scheds=('fwd', 'bwd')):
+    """Ids of unusual value or type in scheduled plans: negative ids that mirror positive ones (-k next to n + 1 - k), 0, large
+    numbers, strings equal to numbers: structures of 3-5 tasks with one summary."""
+    idsets = [(1, 2, -1), (1, -2, 2), (0, -1, 1), (1, 2, 3, -2), (1, 2, 3, 4, -3), (4, 3, 2, 1, -1), (1, 2, 3, -1, -2), ('1', 1, -1),
+              (10 ** 6, 1, 2), (1, 2, 3, 4, -5), (2, 3, 4, 5, -4)]
+    for ids in idsets:
+        n = len(ids)
+        for par in ((None,) * n, (None, 0) + (None,) * (n - 2), (None, 0, 0) + (None,) * (n - 3)):
+            lv = [i for i in range(n) if is_leaf(par, i)]
+            attrs = {i: {'estimate': 4 + 4 * (k % 2), 'resource': 'AB'[k % 2]} for k, i in enumerate(lv)}
+            tasks = [(ids[i], par[i], dict(attrs.get(i, {}))) for i in range(n)]
+            for links in ((), ((n - 1, 0),) if par[0] is None and 0 in lv else ((n - 1, n - 2),)):
+                if links and (direct_cycle(n, links) or leaf_cycle(par, links)):
+                    continue
+                for sched in scheds:
+                    A = MON if sched == 'fwd' else MON + 21 * DAY
+                    for bal in (True, False):
+                        yield Scenario(sched, bal, A, tasks, list(links), layer='L1neg')
